@@ -151,6 +151,8 @@ pub struct Opts {
     pub only: Option<u64>,
     pub part: Option<String>,
     pub extra: Vec<String>,
+    /// multiplies every workload size (Miri / valgrind runs use a small fraction)
+    pub scale: f64,
 }
 
 impl Opts {
@@ -163,6 +165,18 @@ impl Opts {
         }
         idx % self.nshards as u64 == self.shard as u64
     }
+    /// for enumerated (not size()-scaled) loops: shard membership and, when --scale < 1, a
+    /// deterministic subsample of that fraction
+    pub fn mine_sys(&self, idx: u64) -> bool {
+        if !self.mine(idx) {
+            return false;
+        }
+        if self.scale >= 1.0 || self.only.is_some() {
+            return true;
+        }
+        let h = idx.wrapping_mul(0x9E37_79B9_7F4A_7C15) >> 20;
+        (h % 1_000_000) as f64 <= self.scale * 1_000_000.0
+    }
     pub fn wants_backend(&self, name: &str) -> bool {
         self.backend.as_deref().is_none_or(|b| b.split(',').any(|x| x == name))
     }
@@ -171,7 +185,8 @@ impl Opts {
     }
     /// pick quick/thorough size
     pub fn size(&self, quick: usize, thorough: usize) -> usize {
-        if self.thorough() { thorough } else { quick }
+        let n = if self.thorough() { thorough } else { quick };
+        if self.scale == 1.0 { n } else { ((n as f64 * self.scale).ceil() as usize).max(if n == 0 { 0 } else { 1 }) }
     }
 }
 
